@@ -362,9 +362,13 @@ func initDefault(name string, p unsafe.Pointer) {
 		if f.Opaque || f.Def == nil {
 			continue
 		}
-		build(f.T, f.Def, rv.Field(f.idx))
-	}
-	if d.Unk {
-		*(*[]byte)(unsafe.Add(p, d.unkOff)) = nil
+		// like generated code: only fields with a (non-zero) declared default are assigned; the rest of
+		// the struct is whatever the caller provided - zeroed memory, if the decoder does its job
+		tmp := reflect.New(rv.Field(f.idx).Type()).Elem()
+		build(f.T, f.Def, tmp)
+		if tmp.IsZero() {
+			continue
+		}
+		rv.Field(f.idx).Set(tmp)
 	}
 }
